@@ -181,3 +181,25 @@ package object
 //@ modifies ghost("lock.w", bool, goTypeMutex), ghost("lock.r", bool, goTypeMutex)
 //@ assumeframe
 //@ ensures[C09.released] !ghost("lock.w", bool, goTypeMutex) && !ghost("lock.r", bool, goTypeMutex)
+
+// Shared metadata objects are immutable once built (they are cached in the registries and used by every VM):
+// converter objects are written only by their constructors; a GoType only while it is being registered
+// (newGoType, under the lock) and by getConverter (under the lock); GoField / GoMethod only by their constructors.
+//@ scan[C09.immutable.MapConverter] C09 fieldwriters MapConverter.*: newMapConverter
+//@ scan[C09.immutable.SliceConverter] C09 fieldwriters SliceConverter.*: newSliceConverter
+//@ scan[C09.immutable.ArrayConverter] C09 fieldwriters ArrayConverter.*: newArrayConverter
+//@ scan[C09.immutable.PointerConverter] C09 fieldwriters PointerConverter.*: newPointerConverter
+//@ scan[C09.immutable.StructConverter] C09 fieldwriters StructConverter.*: newStructConverter
+//@ scan[C09.immutable.GoType] C09 fieldwriters GoType.*: newGoType getConverter
+//@ scan[C09.immutable.GoField] C09 fieldwriters GoField.*: newGoField
+//@ scan[C09.immutable.GoMethod] C09 fieldwriters GoMethod.*: newGoMethod
+
+// Assumed frames of two constructors used while wrapping compiled code (they build fresh objects).
+//@ func NewFunction
+//@ trusted
+//@ modifies nothing
+//@ ensures result != nil && fresh(result)
+//@ func NewString
+//@ trusted
+//@ modifies nothing
+//@ ensures result != nil && fresh(result) && result.value == s
